@@ -33,6 +33,7 @@ pub fn literal(v: &J) -> String {
         "int" => { let i = int_of(v); if i < 0 { if i == i64::MIN { "(0 - 9223372036854775807 - 1)".into() } else { format!("(0 - {})", -i) } } else { format!("{}", i) } }
         "real" => match v["c"].as_str().unwrap() {
             "fin" => { let (n, d) = (v["n"].as_i64().unwrap(), v["d"].as_i64().unwrap()); if n < 0 { format!("(0.0 - {})", decimal(-n, d)) } else { decimal(n, d) } }
+            "p63" => "9223372036854775808.0".into(), "n63" => "(0.0 - 9223372036854775808.0)".into(),
             "nan" => "('NaN'::real)".into(), "pinf" => "('inf'::real)".into(), "ninf" => "('-inf'::real)".into(),
             _ => "('-0.0'::real)".into()
         },
@@ -148,7 +149,7 @@ pub fn statement(q: &J, jpath: &str) -> String {
 }
 
 pub fn table_defs(tdef: &str) -> String {
-    let (kmod, vmod) = match tdef { "knn" => (" NOT NULL", ""), "vdef" => ("", " DEFAULT 7"), _ => ("", "") };
+    let (kmod, vmod) = match tdef { "knn" => (" NOT NULL", ""), "vdef" => ("", " DEFAULT 7"), "bothnn" => (" NOT NULL", " NOT NULL"), _ => ("", "") };
     format!("CREATE TABLE t(line = 'k=([a-z]+)? v=(-?[0-9]+)?', line[1] => k TEXT{}, line[2] => v INT{});\n\
              CREATE TABLE u(jl = 'k=([a-z]+)? v=(-?[0-9]+)?', jl[1] => k TEXT, jl[2] => w INT);", kmod, vmod)
 }
